@@ -159,6 +159,56 @@ def build_bm(variant='portable', sanitize=False):
   return so
 
 
+_CLMUL_PROBE_CC = r'''
+#include <cstdint>
+#include "paranoid_crypto/lib/randomness_tests/cc_util/berlekamp_massey.cc"
+extern "C" void verif_clmul(uint64_t x, uint64_t y, uint64_t* hi, uint64_t* lo) {
+  paranoid_crypto::lib::randomness_tests::cc_util::clmul(x, y, hi, lo);
+}
+'''
+
+
+def build_clmul_probe():
+  """The repo's own inline `clmul(x, y, &hi, &lo)` (wrapper around the PCLMULQDQ / PMULL
+  intrinsic) exported from a translation unit that #includes berlekamp_massey.cc built as the
+  CLMUL variant; returns the path of the .so."""
+  os.makedirs(BUILD, exist_ok=True)
+  src = os.path.join(
+      REPO, 'paranoid_crypto/lib/randomness_tests/cc_util/berlekamp_massey.cc')
+  h = hashlib.sha1(open(src, 'rb').read() + _CLMUL_PROBE_CC.encode()).hexdigest()[:12]
+  so = os.path.join(BUILD, 'bm_clmulprobe_%s.so' % h)
+  if os.path.exists(so):
+    return so
+  wrap = os.path.join(BUILD, 'bm_clmulprobe_%d.cc' % os.getpid())
+  with open(wrap, 'w') as f:
+    f.write(_CLMUL_PROBE_CC)
+  flags = ['-O2', '-std=c++17', '-shared', '-fPIC', '-I', REPO, '-mpclmul', '-msse2',
+           '-D__CLMUL__']
+  tmp = so + '.tmp%d' % os.getpid()
+  try:
+    subprocess.run(['g++'] + flags + [wrap, '-o', tmp], check=True,
+                   stdout=subprocess.PIPE, stderr=subprocess.PIPE)
+  finally:
+    os.remove(wrap)
+  os.replace(tmp, so)
+  return so
+
+
+class ClmulProbe:
+
+  def __init__(self):
+    self.lib = ctypes.CDLL(build_clmul_probe())
+    self.lib.verif_clmul.argtypes = [ctypes.c_uint64, ctypes.c_uint64,
+                                     ctypes.POINTER(ctypes.c_uint64),
+                                     ctypes.POINTER(ctypes.c_uint64)]
+    self.lib.verif_clmul.restype = None
+
+  def clmul(self, x, y):
+    hi, lo = ctypes.c_uint64(), ctypes.c_uint64()
+    self.lib.verif_clmul(x, y, ctypes.byref(hi), ctypes.byref(lo))
+    return hi.value, lo.value
+
+
 class BmLib:
 
   def __init__(self, variant='portable'):
